@@ -2,6 +2,7 @@ package an
 
 import (
 	"go/token"
+	"go/types"
 
 	"golang.org/x/tools/go/ssa"
 )
@@ -372,4 +373,164 @@ func BlockPos(b *ssa.BasicBlock) token.Pos {
 		}
 	}
 	return token.NoPos
+}
+
+// FrameEdge is a branch edge inside a helper function that is known to have been taken when the helper's
+// result has the value a guarding edge of the caller established.
+type FrameEdge struct {
+	Edge
+	Call   *ssa.Call
+	Callee *ssa.Function
+}
+
+// ArgOf maps a value of the helper's frame to the caller's frame when it is (derived by Origin from) one of
+// the helper's parameters; other values are returned unchanged with ok=false.
+func (fe FrameEdge) ArgOf(v ssa.Value) (ssa.Value, bool) {
+	p, ok := Origin(v).(*ssa.Parameter)
+	if !ok || p.Parent() != fe.Callee {
+		return v, false
+	}
+	for i, q := range fe.Callee.Params {
+		if q == p && i < len(fe.Call.Call.Args) {
+			return fe.Call.Call.Args[i], true
+		}
+	}
+	return v, false
+}
+
+// ImpliedHelperEdges: g guards a block of the caller and its condition is the boolean result of a static
+// call of a helper (taken as true or false), or the nil test of a helper's error result on the nil side.
+// It returns the branch edges inside the helper that every execution with that result has taken.
+func ImpliedHelperEdges(g Edge) []FrameEdge {
+	call, h, targets := helperTargets(g)
+	if h == nil {
+		return nil
+	}
+	var out []FrameEdge
+	for _, b := range h.Blocks {
+		if BlockIf(b) == nil || len(b.Succs) != 2 {
+			continue
+		}
+		domAll := true
+		for _, t := range targets {
+			if !b.Dominates(t) {
+				domAll = false
+			}
+		}
+		if !domAll {
+			continue
+		}
+		for i := 0; i < 2; i++ {
+			other := b.Succs[1-i]
+			reach := false
+			for _, t := range targets {
+				if other == t || BlockReaches(other, t) {
+					reach = true
+				}
+			}
+			if !reach {
+				out = append(out, FrameEdge{Edge: Edge{From: b, Succ: i}, Call: call, Callee: h})
+			}
+		}
+	}
+	return out
+}
+
+// RefusedHelperEdges: like ImpliedHelperEdges, but returns the branch edges inside the helper from which no return
+// with the established result is reachable (an execution that took one of them did not produce that result).
+func RefusedHelperEdges(g Edge) []FrameEdge {
+	call, h, targets := helperTargets(g)
+	if h == nil {
+		return nil
+	}
+	var out []FrameEdge
+	for _, b := range h.Blocks {
+		if BlockIf(b) == nil || len(b.Succs) != 2 {
+			continue
+		}
+		for i := 0; i < 2; i++ {
+			reach := false
+			for _, t := range targets {
+				if b.Succs[i] == t || BlockReaches(b.Succs[i], t) {
+					reach = true
+				}
+			}
+			if !reach {
+				out = append(out, FrameEdge{Edge: Edge{From: b, Succ: i}, Call: call, Callee: h})
+			}
+		}
+	}
+	return out
+}
+
+// helperTargets decodes a guarding edge of the caller as ‘the helper call returned this result’ and returns the
+// helper's return blocks consistent with it.
+func helperTargets(g Edge) (*ssa.Call, *ssa.Function, []*ssa.BasicBlock) {
+	ifi := g.If()
+	if ifi == nil {
+		return nil, nil, nil
+	}
+	var call *ssa.Call
+	wantBool, isBool := false, false
+	resIdx := 0
+	base, neg := CondBase(ifi.Cond)
+	switch x := base.(type) {
+	case *ssa.Call:
+		call, isBool = x, true
+		wantBool = (g.Succ == 0) != neg
+	case *ssa.Extract:
+		if c, ok := x.Tuple.(*ssa.Call); ok {
+			if bt, ok := x.Type().Underlying().(*types.Basic); ok && bt.Kind() == types.Bool {
+				call, isBool, resIdx = c, true, x.Index
+				wantBool = (g.Succ == 0) != neg
+			}
+		}
+	}
+	if call == nil {
+		if x, nilSucc, ok := NilTest(ifi); ok && g.Succ == nilSucc && IsErrorType(x.Type()) {
+			switch y := Strip(x).(type) {
+			case *ssa.Call:
+				call = y
+			case *ssa.Extract:
+				if c, ok := y.Tuple.(*ssa.Call); ok {
+					call, resIdx = c, y.Index
+				}
+			}
+		}
+	}
+	if call == nil {
+		return nil, nil, nil
+	}
+	h := call.Call.StaticCallee()
+	if h == nil || len(h.Blocks) == 0 {
+		return nil, nil, nil
+	}
+	nres := h.Signature.Results().Len()
+	if resIdx >= nres {
+		return nil, nil, nil
+	}
+	// target returns: those consistent with the established result
+	var targets []*ssa.BasicBlock
+	for _, b := range h.Blocks {
+		if len(b.Instrs) == 0 {
+			continue
+		}
+		ret, ok := b.Instrs[len(b.Instrs)-1].(*ssa.Return)
+		if !ok || len(ret.Results) != nres {
+			continue
+		}
+		rv := ret.Results[resIdx]
+		if isBool {
+			if bv, isC := ConstBool(rv); isC && bv != wantBool {
+				continue
+			}
+		} else if DefiniteError(rv) || ReturnNonNilGuarded(ret, rv) {
+			continue
+		}
+		targets = append(targets, b)
+	}
+	if len(targets) == 0 {
+		return nil, nil, nil
+	}
+	return call, h, targets
 }
